@@ -23,15 +23,31 @@ def shared_attrs(prog):
             cfg = st.targets[0].id
     if cfg is None:
         raise AnalysisError("set_configs_directory: per-user config directory (from $HOME) not found")
+    # names derived from it (config_dir = os.path.join(home, ...))
+    cfgs = {cfg}
+    for _ in range(3):
+        for st in walk_no_nested(f):
+            if isinstance(st, ast.Assign) and isinstance(st.targets[0], ast.Name) and \
+                    any(isinstance(x, ast.Name) and x.id in cfgs for x in ast.walk(st.value)):
+                cfgs.add(st.targets[0].id)
+
+    def from_cfg(e):
+        return any(isinstance(x, ast.Name) and x.id in cfgs for x in ast.walk(e))
     out = {}
     for st in walk_no_nested(f):
-        if isinstance(st, ast.Assign) and isinstance(st.targets[0], ast.Attribute) and cfg in src(st.value):
+        if isinstance(st, ast.Assign) and isinstance(st.targets[0], ast.Attribute) and from_cfg(st.value):
             out[st.targets[0].attr] = st
     # the same written as a loop:  for kind in ('db', ...): setattr(args, kind + '_config_path', os.path.join(cfg, ...))
-    for lp in [x for x in walk_no_nested(f) if isinstance(x, ast.For) and isinstance(x.iter, (ast.Tuple, ast.List)) and isinstance(x.target, ast.Name)]:
+    massigns = prog.module("isoquant.py").assigns
+    for lp in [x for x in walk_no_nested(f) if isinstance(x, ast.For) and isinstance(x.target, ast.Name)]:
+        it = lp.iter
+        if isinstance(it, ast.Name) and isinstance(massigns.get(it.id), (ast.Tuple, ast.List)):
+            it = massigns[it.id]                  # a module-level tuple of kinds
+        if not isinstance(it, (ast.Tuple, ast.List)):
+            continue
         for c in ast.walk(lp):
-            if isinstance(c, ast.Call) and call_name(c) == "setattr" and len(c.args) == 3 and cfg in src(c.args[2]):
-                for e in lp.iter.elts:
+            if isinstance(c, ast.Call) and call_name(c) == "setattr" and len(c.args) == 3 and from_cfg(c.args[2]):
+                for e in it.elts:
                     if isinstance(e, ast.Constant) and isinstance(e.value, str):
                         from ..engine import staticeval
                         try:
